@@ -274,6 +274,21 @@ def check_reply(case, part, rng):
             break
     else:
         part.count('replies_segmentation_independent')
+    # a reply cut short by the peer (every strict prefix, then EOF) must never be returned as a reply
+    prefixes = [[wire[:c]] for c in range(1, n)]
+    if len(prefixes) > 40:
+        prefixes = [prefixes[i] for i in sorted(set([0, 1, 2, 3, 4, n - 2, n - 3, n - 4] +
+                                                   [rng.randrange(n - 1) for _ in range(30)])) if 0 <= i < len(prefixes)]
+    pouts = read_replies(wire, prefixes)
+    part.evaluations += len(pouts)
+    part.count('truncated_reply_reads', len(pouts))
+    for pieces, o in zip(prefixes, pouts):
+        if o[2] is None:
+            part.violation('truncated-reply-returned-as-reply/' + case['kind'],
+                           {'fed': pieces[0][-60:], 'returned': [o[0], o[1]]}, replay)
+            break
+    else:
+        part.count('truncated_replies_all_rejected')
     ref_code, ref_texts = reference_reply(wire)
     if base[2] is not None:
         part.violation('well-formed-reply-rejected/' + case['kind'], {'error': base[2], 'wire': wire}, replay)
@@ -357,7 +372,7 @@ def worker(job):
     for n in range(job['n_reply']):
         check_reply(gen_reply(rng), part, rng)
     for n in range(job['n_completion']):
-        case = {'ending': rng.choice(['eof_first', 'reply_first', 'missing_final', 'error_final', 'no_eof']),
+        case = {'ending': rng.choice(['eof_first', 'reply_first', 'missing_final', 'error_final', 'no_eof', 'partial_final']),
                 'data': [bytes(rng.randrange(256) for _ in range(rng.randrange(0, 40))) for _ in range(rng.randrange(0, 4))],
                 'segmentation': rng.choice(['whole', 'bytes', 'halves'])}
         check_completion(case, part)
